@@ -365,17 +365,31 @@ bool vfps::ProgramOptions::parse(int ac, char** av)
                 Display::printText(message);
                 store(parse_config_file(ifs, _cfgfileopts), _vm);
                 notify(_vm);
+                /* Legacy names act exactly like their current names:
+                 * the value is taken over unless the current name has been
+                 * given itself (the command line has priority), and the
+                 * legacy entry is dropped so that it cannot be applied
+                 * after the current one. */
                 if(_vm.count("SyncFreq")) {
-                    _vm.at("SynchrotronFrequency").value()
-                            = _vm["SyncFreq"].value();
+                    if (_vm["SynchrotronFrequency"].defaulted()) {
+                        _vm.at("SynchrotronFrequency").value()
+                                = _vm["SyncFreq"].value();
+                    }
+                    _vm.erase("SyncFreq");
                 }
                 if(_vm.count("RFVoltage")) {
-                    _vm.at("AcceleratingVoltage").value()
-                            = _vm["RFVoltage"].value();
+                    if (_vm["AcceleratingVoltage"].defaulted()) {
+                        _vm.at("AcceleratingVoltage").value()
+                                = _vm["RFVoltage"].value();
+                    }
+                    _vm.erase("RFVoltage");
                 }
                 if(_vm.count("steps")) {
-                    _vm.at("StepsPerTs").value()
-                            = _vm["steps"].value();
+                    if (_vm["StepsPerTs"].defaulted()) {
+                        _vm.at("StepsPerTs").value()
+                                = _vm["steps"].value();
+                    }
+                    _vm.erase("steps");
                 }
                 notify(_vm);
             }
